@@ -371,6 +371,14 @@ func init() {
 		return c.def("rkind", app("rkind_of_tag", app("rt_tag", c.args[0].S)))
 	}
 	invokeMods["(reflect.Type).Kind"] = func(e *Engine, cc *ssa.CallCommon) []string { return nil }
+	// (common.Address).Bytes(): a slice holding the 20 bytes of the address
+	libSpecs["(github.com/ethereum/go-ethereum/common.Address).Bytes"] = func(c *callCtx) Val {
+		e := c.e()
+		e.declAddr()
+		out := e.freshVal(c.st, "addrbytes", c.rt)
+		e.assumeIn(c.st, and(eq(app("slen", out.S), "20"), eq(e.bvOf(c.st, out), app("bv_of", c.args[0].S, "0", "20"))))
+		return out
+	}
 	// common.BytesToAddress(b): the last 20 bytes of b, left-padded: ethaddr(content of b)
 	libSpecs["github.com/ethereum/go-ethereum/common.BytesToAddress"] = func(c *callCtx) Val {
 		e := c.e()
